@@ -392,12 +392,12 @@ BAD_JSON = "{not json"
 USAGE = ["missing-path", "missing-path-among-valid", "config-missing", "config-malformed-yaml", "config-malformed-json",
          "config-yaml-not-a-mapping", "config-json-not-a-mapping", "auto-config-not-a-mapping",
          "auto-config-malformed", "global-config-malformed", "format-invalid", "format-no-value", "unknown-option",
-         "threshold-nonint", "rules-invalid-json", "perf-rule-invalid", "project-root-missing", "project-root-is-file"]
+         "threshold-nonint", "threshold-nonpositive", "rules-invalid-json", "perf-rule-invalid", "project-root-missing", "project-root-is-file"]
 BENIGN = ["config-empty-file", "config-comments-only"]
 
 
 def usage_applicable(cmd, cls):
-    if cls == "threshold-nonint":
+    if cls in ("threshold-nonint", "threshold-nonpositive"):
         return cmd in INT_OPTS
     if cls == "rules-invalid-json":
         return cmd == "file-placement"
@@ -435,6 +435,9 @@ def usage_args(cmd, cls, k):
     elif cls == "threshold-nonint":
         opts = INT_OPTS[cmd]
         a += [opts[k % len(opts)], ["x", "1.5", ""][k % 3], "."]
+    elif cls == "threshold-nonpositive":  # documented as invalid: limits must be positive
+        opts = INT_OPTS[cmd]
+        a += [opts[k % len(opts)], ["0", "-1", "-7"][k % 3], "."]
     elif cls == "rules-invalid-json":
         a += ["--rules", ["{bad", "[1,", "{'a': 1}"][k % 3], "."]
     elif cls == "perf-rule-invalid":
